@@ -22,6 +22,7 @@ import (
 	"os"
 	"sort"
 	"strconv"
+	"strings"
 	"sync"
 
 	"github.com/Query-farm/vgi-rpc-go/vgirpc"
@@ -35,7 +36,7 @@ import (
 type c36Turn struct {
 	Rows  int    `json:"rows"`
 	Value int64  `json:"value"`
-	Act   string `json:"act"` // emit | finish | err
+	Act   string `json:"act"` // emit | finish | err | panic | noemit | emit2
 }
 type c36Script struct {
 	Fail  bool      `json:"fail,omitempty"`
@@ -58,6 +59,7 @@ type c36Call struct {
 }
 type c36In struct {
 	Data  int       `json:"data"` // bytes of the segment's data area
+	Gate  int       `json:"gate,omitempty"` // VGI_RPC_SHM_MIN_BATCH_BYTES for this case (0: 48)
 	Calls []c36Call `json:"calls"`
 	Class string    `json:"class,omitempty"`
 }
@@ -96,6 +98,15 @@ func (st *c36State) turn(in arrow.RecordBatch, out *vgirpc.OutputCollector) erro
 	switch t.Act {
 	case "emit":
 		return out.Emit(int64Batch(outSchemaV, c36Repeat(t.Value+insum, t.Rows)))
+	case "emit2":
+		if err := out.Emit(int64Batch(outSchemaV, c36Repeat(t.Value+insum, t.Rows))); err != nil {
+			return err
+		}
+		return out.Emit(int64Batch(outSchemaV, c36Repeat(t.Value+insum, t.Rows)))
+	case "noemit":
+		return nil
+	case "panic":
+		panic("scripted turn panic")
 	case "finish":
 		return out.Finish()
 	}
@@ -536,11 +547,14 @@ func c36Ctor(prefix, s string) string {
 		"u_blob": "MBlob", "prod": "MProd", "exch": "MExch", "nope": "MUnknown",
 		"none": "AdvNone", "good": "AdvGood", "name_only": "AdvNameOnly", "bad_size": "AdvBadSize", "other": "AdvOther",
 		"inline": "WInline", "": "WInline", "ptr": "WPtr", "bad": "WBad",
-		"emit": "AEmit", "finish": "AFinish", "err": "AErr",
+		"emit": "AEmit", "finish": "AFinish", "err": "(AErr C36.EScript)", "panic": "(AErr C36.EPanic)", "noemit": "(AErr C36.ENoEmit)", "emit2": "(AErr C36.EEmit2)",
 	}
 	v, ok := m[s]
 	if !ok {
 		panic("c36: no constructor for " + prefix + "/" + s)
+	}
+	if strings.HasPrefix(v, "(") {
+		return "(C36." + v[1:]
 	}
 	return "C36." + v
 }
@@ -578,7 +592,17 @@ func c36RespTerm(r [][]c36Frame) string {
 	return ListOf(r, func(s []c36Frame) string { return ListOf(s, c36FrameTerm) })
 }
 
+func c36Gate(in c36In) int64 {
+	if in.Gate > 0 {
+		return int64(in.Gate)
+	}
+	return 48
+}
+
 func c36Run(in c36In) CaseOut {
+	// the size gate is process-global in the library and other harnesses of this
+	// binary set it through the environment: pin it for this case
+	vgirpc.VerifC36SetMinBatchBytes(c36Gate(in))
 	with := c36Play(in, true)
 	without := c36Play(in, false)
 
@@ -592,18 +616,18 @@ func c36Run(in c36In) CaseOut {
 			rowsSet[it.Rows] = true
 		}
 	}
-	keys := func(m map[int]bool) []int {
+	keys := func(m map[int]bool, min int) []int {
 		var ks []int
 		for k := range m {
-			if k > 0 {
+			if k >= min {
 				ks = append(ks, k)
 			}
 		}
 		sort.Ints(ks)
 		return ks
 	}
-	szi := ListOf(keys(rowsSet), func(k int) string { return c36SzTerm(k, c36SizeInt(k)) })
-	szb := ListOf(keys(blobSet), func(k int) string { return c36SzTerm(k, c36SizeBlob(k)) })
+	szi := ListOf(keys(rowsSet, 1), func(k int) string { return c36SzTerm(k, c36SizeInt(k)) })
+	szb := ListOf(keys(blobSet, 0), func(k int) string { return c36SzTerm(k, c36SizeBlob(k)) })
 
 	coqIn := App("C36.Build_input", N(uint64(in.Data)), Z(vgirpc.VerifC35MinBatchBytes()), szi, szb, ListOf(in.Calls, c36CallTerm))
 	cobs := ListOf(with.Calls, func(o c36CallObs) string {
@@ -726,7 +750,7 @@ func (g *c36G) turns(n int, exchange bool, pBig, pEnd float64) []c36Turn {
 	for i := 0; i < n; i++ {
 		t := c36Turn{Rows: g.rows(g.r.Float64() < pBig), Value: int64(g.r.Intn(60) - 10), Act: "emit"}
 		if g.r.Float64() < pEnd {
-			t.Act = g.pick("err", "finish")
+			t.Act = g.pick("err", "finish", "panic", "noemit", "emit2")
 		}
 		ts = append(ts, t)
 	}
@@ -761,6 +785,9 @@ func (g *c36G) stream(method, adv, wish string, nItems int, pBig, pEnd, pPtr, pB
 	return c36Call{Method: method, Adv: adv, Wish: wish, X: int64(g.r.Intn(100)),
 		Script: c36Script{Turns: g.turns(nt, ex, pBig, pEnd)}, Items: g.items(nItems, ex, pPtr, pBad), ReleaseNow: g.r.Intn(2) == 0}
 }
+func (g *c36G) gate() int {
+	return []int{48, 48, 48, 1, 64, 120}[g.r.Intn(6)]
+}
 func (g *c36G) data() int { return []int{100, 4200, 4500, 5000, 8192, 16384}[g.r.Intn(6)] }
 
 // honest call: pointers only where the segment is engaged
@@ -790,7 +817,7 @@ func (g *c36G) honest(att *bool) c36Call {
 	if engaged {
 		pPtr = 0.6
 	}
-	c := g.stream("exch", adv, wish, g.r.Intn(5), 0.5, 0.08, pPtr, 0)
+	c := g.stream("exch", adv, wish, g.r.Intn(5), 0.5, 0.2, pPtr, 0)
 	c.Script.Fail = g.r.Intn(12) == 0
 	return c
 }
@@ -910,6 +937,23 @@ func c36GenInputs(r *rand.Rand, n int, tier string) []c36In {
 			{Method: "exch", Adv: "good", Wish: "inline", X: 1, Script: c36Script{Turns: []c36Turn{emit(8, 1), {Act: "finish"}}},
 				Items: []c36Item{{Wish: "ptr", Rows: 8, Val: 2}, {Wish: "ptr", Rows: 8, Val: 2}}, ReleaseNow: true}, canary()}},
 	)
+	// the turn that consumed a pointer input fails - error, panic, nothing emitted, two batches,
+	// Finish on an exchange - as the first turn and after an answered one, release at once / deferred
+	for _, act := range []string{"err", "panic", "noemit", "emit2", "finish"} {
+		for _, at := range []int{0, 1} {
+			ts := []c36Turn{}
+			its := []c36Item{}
+			for k := 0; k < at; k++ {
+				ts = append(ts, emit(8, int64(k+1)))
+				its = append(its, c36Item{Wish: "ptr", Rows: 8, Val: 2})
+			}
+			ts = append(ts, c36Turn{Rows: 8, Value: 5, Act: act})
+			its = append(its, c36Item{Wish: "ptr", Rows: 16, Val: 3}, c36Item{Wish: "ptr", Rows: 6, Val: 1})
+			out = append(out, c36In{Class: "input-ptr-turn-fails", Data: 16384, Calls: []c36Call{
+				{Method: "exch", Adv: "good", Wish: "inline", X: 1, Script: c36Script{Turns: ts}, Items: its, ReleaseNow: at == 0},
+				canary(), bigBlob("good", "inline", true)}})
+		}
+	}
 	nb := len(out)
 	maxCalls := 8
 	if tier == "thorough" {
@@ -923,7 +967,7 @@ func c36GenInputs(r *rand.Rand, n int, tier string) []c36In {
 		for i := 0; i < k; i++ {
 			cs = append(cs, g.honest(&att))
 		}
-		out = append(out, c36In{Class: "honest", Data: g.data(), Calls: cs})
+		out = append(out, c36In{Class: "honest", Data: g.data(), Gate: g.gate(), Calls: cs})
 	}
 	for len(out) < n {
 		att := false
@@ -936,13 +980,13 @@ func c36GenInputs(r *rand.Rand, n int, tier string) []c36In {
 				cs = append(cs, g.wild(&att))
 			}
 		}
-		out = append(out, c36In{Class: "wild", Data: g.data(), Calls: cs})
+		out = append(out, c36In{Class: "wild", Data: g.data(), Gate: g.gate(), Calls: cs})
 	}
 	return out
 }
 
 func init() {
 	_ = json.Marshal
-	Register("C36", "histories of 1-8 (thorough 1-20) unary / producer / exchange calls with results and batches on both sides of the shm size gate, segment data areas from 1 byte to 16 KiB, every advertisement pattern (never, once, always, name only, size 0, another name), request and exchange-input batches sent inline / as pointer batches / as pointers to nowhere, release at once or at the end; each history is played through Server.Serve twice, by a client owning a real POSIX segment and by a client without one; boundary classes first, then honest clients (2/3), then unconstrained ones; non-trivial = at least two calls and at least one pointer batch travelled in either direction; distinct = distinct input JSON",
+	Register("C36", "histories of 1-8 (thorough 1-20) unary / producer / exchange calls with results and batches on both sides of the shm size gate (gate 48, also 1 / 64 / 120 in the random streams), turns that answer or fail (error, panic, nothing emitted, two batches, Finish on an exchange) after consuming an inline or pointer input, segment data areas from 1 byte to 16 KiB, every advertisement pattern (never, once, always, name only, size 0, another name), request and exchange-input batches sent inline / as pointer batches / as pointers to nowhere, release at once or at the end; each history is played through Server.Serve twice, by a client owning a real POSIX segment and by a client without one; boundary classes first, then honest clients (2/3), then unconstrained ones; non-trivial = at least two calls and at least one pointer batch travelled in either direction; distinct = distinct input JSON",
 		c36GenInputs, c36Run)
 }
